@@ -307,16 +307,24 @@ def case_moving(ctx, rng, N, median):
     weights = None
     if not median and rng.random() < 0.5:
         weights = [rng.choice([0, 1, 1, 2, 3, -1]) for _ in range(N.n)]
+    # NaN as the nodata value (the kernels test it with isnan): same field with the empty cells holding NaN
+    nan_nd = rng.random() < 0.25
+    data_np = arr(N, data, np.float64)
+    nd_arg = float(nd)
+    if nan_nd:
+        data_np = np.where(data_np == nd, np.nan, data_np)
+        nd_arg = float("nan")
+        ctx.count("window:nodata=NaN")
     if median:
-        out = N.flw.moving_median(arr(N, data, np.float64), n, nodata=float(nd), **kw)
+        out = N.flw.moving_median(data_np, n, nodata=nd_arg, **kw)
         op, name = "c14_moving_median", "moving_median"
         args = {"ds": N.ds, "usmain": usmain, "strord": strord, "data": data, "n": n, "nodata": nd}
     else:
         w = None if weights is None else arr(N, weights, np.float64)
-        out = N.flw.moving_average(arr(N, data, np.float64), n, weights=w, nodata=float(nd), **kw)
+        out = N.flw.moving_average(data_np, n, weights=w, nodata=nd_arg, **kw)
         op, name = "c14_moving_average", "moving_average"
         args = {"ds": N.ds, "usmain": usmain, "strord": strord, "weights": weights, "data": data, "n": n, "nodata": nd}
-    impl = [float(x) for x in np.asarray(out).ravel().tolist()]
+    impl = [(float(nd) if (nan_nd and x != x) else float(x)) for x in np.asarray(out).ravel().tolist()]
     ctx.count("op:" + name + ("(weights)" if weights is not None else "") + ("(restrict_strord)" if strord is not None else ""))
     ctx.count(f"window:n={n}")
 
@@ -328,17 +336,26 @@ def case_moving(ctx, rng, N, median):
         fs = []
         spec = pairs_expected(a["spec.num"], a["spec.den"])
         model = pairs_expected(a["model.num"], a["model.den"])
-        bad = [i for i in range(N.n) if impl[i] != spec[i]]
+        impl_j = impl
+        if nan_nd:
+            # with NaN as nodata the kernels' skip test `data[idx0] == nodata` never fires, so EMPTY cells receive the
+            # window statistic too (with a numeric nodata they stay empty). The property speaks about the windows, not
+            # about what an empty cell gets: judged at the cells that hold a value, observed (counted) at the others
+            filled = sum(1 for i in range(N.n) if data[i] == nd and impl[i] != float(nd))
+            ctx.count("window:nodata=NaN:empty-cells-filled(observed)", filled)
+            impl_j = [impl[i] if data[i] != nd else model[i] for i in range(N.n)]
+            spec = [spec[i] if data[i] != nd else model[i] for i in range(N.n)]
+        bad = [i for i in range(N.n) if impl_j[i] != spec[i]]
         if bad:
             fs.append({"kind": "spec", "what": f"{name}(n={n},{combo}): differs from the value over the flow-path window at cells {bad[:6]}",
                        "impl": impl, "spec": spec})
-        if impl != model:
+        if impl_j != model:
             fs.append({"kind": "model", "what": f"{name}: implementation != Lean model", "impl": impl, "model": model})
         if a["usmain_ok"] != [1]:
             fs.append({"kind": "spec", "what": "idxs_us_main: entry is not an inflow cell"})
         return fs
-    desc = {"op": name, **N.base, "data": data, "n": n, "nodata": nd, "weights": weights, "strord_option": combo,
-            "strord": strord}
+    desc = {"op": name, **N.base, "data": data, "n": n, "nodata": nd, "nodata_is_nan": nan_nd, "weights": weights,
+            "strord_option": combo, "strord": strord}
     ctx.add(desc, [(op, args)], judge, nontrivial=N.nontriv and n > 0)
 
 
